@@ -3355,6 +3355,11 @@ void Analyser::analyseModel(const ModelPtr &model)
 
     pFunc()->removeAllIssues();
 
+    // Start from a new analyser model, so that the outcome of this call does
+    // not depend on (nor alter) the model produced by a previous call.
+
+    pFunc()->mModel = AnalyserModel::AnalyserModelImpl::create(model);
+
     if (model == nullptr) {
         auto issue = Issue::IssueImpl::create();
 
